@@ -180,6 +180,29 @@ def allowed_roots(root, tool, out_kind, inp_name):
     return [root]
 
 
+def model_default(rep, case, root, template, tool, form, inp_name):
+    """where the tool wrote vs. the Lean model of its default output path"""
+    from .. import leanio
+    base = tool.split("-")[0]
+    if base not in ("chef", "marinate", "chk2plt", "combine", "mandoline"):
+        return
+    new = sorted(set(os.listdir(root)) - set(os.listdir(template)))
+    if len(new) != 1:
+        rep.tie(f"{tool}: expected one new entry beside the inputs, found {new}", case); return
+    arg = form_path(root, inp_name, form)
+    req = {"op": "paths", "path": arg, "path2": form_path(root, "plt00020", form)}
+    if base == "mandoline":
+        name = new[0][:-4] if new[0].endswith(".npz") else new[0]
+        req["slicename"] = name.rsplit("_", 1)[0]
+    m = leanio.driver([req])[0]
+    want = m[base] + (".npz" if base == "mandoline" and new[0].endswith(".npz") else "")
+    got = os.path.join(root, new[0])
+    if os.path.normpath(os.path.join(root, want)) == got:
+        rep.agree()
+    else:
+        rep.tie(f"{tool}: default output {new[0]!r} differs from the Lean path model's {want!r}", case, {"model": m})
+
+
 def run(ctx, rep, model=True):
     template = build_template(ctx)
     before = {n: audit.tree_hash(os.path.join(template, n)) for n in INPUTS}
@@ -194,6 +217,8 @@ def run(ctx, rep, model=True):
                 outcome, ev = execute(root, lambda: fn(root, form, out_kind))
                 judge_writes(rep, case, root, before, ev, allowed_roots(root, tool, out_kind, inp_name))
                 rep.count("outcome:" + ("ok" if outcome == "ok" else "raised"))
+                if model and out_kind == "default" and outcome == "ok":
+                    model_default(rep, case, root, template, tool, form, inp_name)
                 shutil.rmtree(root, ignore_errors=True)
             # fault at every write-side call (first form)
             if out_kind == "none":
